@@ -240,6 +240,9 @@ func (fx *FnExec) family(st *State, key string, sort *Sort) *Term {
 	}
 	// unknown heap contents of this epoch: a named constant shared by every state of the epoch
 	name := fmt.Sprintf("H%d|%s", st.epoch, key)
+	if fx.eng.isStableKey(key) {
+		name = "HS|" + key // a stable field has one value for the whole execution
+	}
 	t := fx.c.Const(name, sort)
 	st.heap[key] = t
 	fx.famSort[key] = sort
